@@ -160,7 +160,7 @@ func c02escape(c *core.Ctx) {
 			c.Tabled(R, key, pos, what, "generated stringer range assertion (rule C02.ptype checks the guard covers all declared constants)")
 			continue
 		}
-		if r, ok := escapeTable[key]; ok {
+		if r, ok := escapeTable[c.P.PinnedName(key)]; ok {
 			c.Tabled(R, key, pos, what, r)
 			continue
 		}
